@@ -14,5 +14,5 @@ run_one() {
   done
 }
 export -f run_one
-ls /verif/seeded | grep -E "${SEED_FILTER:-.}" | xargs -P 3 -I{} bash -c 'run_one {}' > $out/result.txt 2>&1
+ls /verif/seeded | grep -E "${SEED_FILTER:-.}" | xargs -P 4 -I{} bash -c 'run_one {}' > $out/result.txt 2>&1
 sort $out/result.txt
